@@ -40,6 +40,7 @@ def setup(ctx):
     ctx.require("monitor", "concurrent_fetches", 30)
     ctx.require("monitor", "fetches_with_trouble_after_3x", 8)
     ctx.require("monitor", "fetches_with_derived_targets", 40)
+    ctx.require("monitor", "cli_fetches", 30)
     ctx.require("monitor", "fetches", 300)
     ctx.require("monitor", "connections_logged", 500)
     ctx.require("monitor", "verify_calls", 500)
@@ -486,6 +487,71 @@ def run_derived_targets(ctx):
                     ctx.case(("derived", how, mr, ends_after, res[0], conns), True, sample=wit)
 
 
+def run_cli(ctx, world):
+    """`nauyaca get` as a user runs it (typer's CliRunner, scratch HOME): --max-redirects N (0 included) and
+    --no-redirects mean on the command line what they mean in the library."""
+    import tempfile
+
+    from typer.testing import CliRunner
+
+    from nauyaca.__main__ import app
+
+    P0 = world.servers[0].port
+
+    def u(name):
+        return f"gemini://127.0.0.1:{P0}/{name}"
+
+    old_home = os.environ.get("HOME")
+    tmp = tempfile.mkdtemp(prefix="vf-c16cli-")
+    try:
+        for length in (0, 1, 2, 3, 6):
+            for opt in (["-r", "0"], ["--max-redirects", "1"], ["-r", "2"], ["-r", "5"], [], ["--no-redirects"], ["--no-redirects", "-r", "5"]):
+                world.table.clear()
+                world.trouble.clear()
+                for i in range(length):
+                    world.table[(0, f"/k{i}")] = f"3{i % 2} {u(f'k{i + 1}')}\r\n".encode()
+                world.table[(0, f"/k{length}")] = b"20 text/gemini\r\nEND-OF-CLI-CHAIN\n"
+                home = os.path.join(tmp, f"h{length}-{'_'.join(opt) or 'default'}")
+                os.makedirs(home)
+                os.environ["HOME"] = home
+                marks = world.log_marks()
+                r = CliRunner().invoke(app, ["get", u("k0")] + opt)
+                for srv in world.servers:
+                    srv.wait_idle(3)
+                conns = len(world.connections_since(marks))
+                follow = "--no-redirects" not in opt
+                limit = 5 if not opt or opt == ["--no-redirects"] else int(opt[-1]) if opt[-1].isdigit() else 5
+                out = r.output or ""
+                ctx.count("monitor", "fetches")
+                ctx.count("monitor", "cli_fetches")
+                ctx.count("monitor", "connections_logged", conns)
+                wit = {"level": "cli", "command": "nauyaca get " + " ".join([u("k0")] + opt), "chain_length": length, "exit_code": r.exit_code, "connections": conns, "output_tail": out[-160:]}
+                if not follow:
+                    if conns != 1:
+                        ctx.violation("cli:no-redirects-followed", f"--no-redirects: {conns} connections", wit)
+                    elif length and "END-OF-CLI-CHAIN" in out:
+                        ctx.violation("cli:no-redirects-followed", "--no-redirects: the final content was shown", wit)
+                elif conns > limit + 1:
+                    ctx.violation("too-many-connections:cli", f"--max-redirects {limit} allows {limit + 1} connections, {conns} were opened", wit)
+                elif length <= limit:
+                    if r.exit_code != 0 or "END-OF-CLI-CHAIN" not in out or conns != length + 1:
+                        ctx.violation("chain-within-limit-not-followed:cli", f"a chain of {length} redirects with --max-redirects {limit}: exit code {r.exit_code}, {conns} connections", wit)
+                    else:
+                        ctx.count("monitor", "chains_followed_to_end")
+                elif r.exit_code == 0 or "END-OF-CLI-CHAIN" in out:
+                    ctx.violation("overlong-chain-returned-response:cli", f"a chain of {length} redirects with --max-redirects {limit} ended with exit code {r.exit_code}", wit)
+                else:
+                    ctx.count("monitor", "loops_or_overlong")
+                ctx.case(("cli", length, tuple(opt), r.exit_code, conns), True, sample=wit)
+    finally:
+        if old_home is None:
+            os.environ.pop("HOME", None)
+        else:
+            os.environ["HOME"] = old_home
+        shutil.rmtree(tmp, ignore_errors=True)
+        world.table.clear()
+
+
 def run_concurrent(ctx, world):
     """Several redirect-following fetches in flight at once on ONE client: each keeps its own redirect count and
     loop history (chains within the limit are followed to the end, cycles and over-long chains stop in time)."""
@@ -588,6 +654,8 @@ def run(ctx):
             run_trouble_after_redirect(ctx, world)
         if ctx.mine(2) or ctx.nshards == 1:
             run_derived_targets(ctx)
+        if ctx.mine(3) or ctx.nshards == 1:
+            run_cli(ctx, world)
         n = ctx.pick(160, 6000) // ctx.nshards
         for i in range(n):
             nodes, edges, start, label = random_graph(rng, world)
